@@ -504,7 +504,7 @@ func runExportedEntry(e expEntry, c ExpCase, rec *h.Rec) error {
 	if err := accessors(lc, b, rec); err != nil {
 		return err
 	}
-	if err := serial(lc, b, rec); err != nil {
+	if _, err := serial(lc, b, rec); err != nil {
 		return err
 	}
 
